@@ -251,3 +251,59 @@ pub fn run_histories(col: &Collector, space_idx: u64, props: &[&str], thorough: 
         "wall_s": (t0.elapsed().as_secs_f64() * 100.0).round() / 100.0,
     }));
 }
+
+/// single-case replay of the two history kinds written by `run_histories`
+pub fn replay_history(prop: &str, kind: &str, case: &serde_json::Value) -> Result<Vec<(String, String)>, String> {
+    use crate::refmodel as r;
+    use crate::spaces::{content, Family};
+    use crate::subject::Opts;
+    let step_want = case.get("step").and_then(|s| s.as_u64()).ok_or("no step")? as usize;
+    let prop = prop.to_string();
+    if kind == "build-history" {
+        let seq: Vec<(u8, u8)> = case.get("sequence").and_then(|s| s.as_array()).ok_or("no sequence")?.iter().filter_map(|x| Some((x.get(0)?.as_u64()? as u8, x.get(1)?.as_u64()? as u8))).collect();
+        let h = std::thread::Builder::new().stack_size(32 << 20).spawn(move || {
+            crate::subject::install_panic_hook();
+            let mut res = vec![];
+            for (step, &(v, e)) in seq.iter().enumerate() {
+                let len = r::cap(v as usize, e as usize, 2).min(9 + step);
+                let input = content(Family::Ctr, 2, len);
+                let o = Opts { mode: None, ecl: Some(e), version: Some(v), mask: None, order: 0 };
+                let built = subject::build(&input, &o);
+                let mut f = core::check_outcome(&built, &input, &o);
+                if let Outcome::Ok(q) = &built {
+                    f.extend(core::check_symbol(q, &input, &o));
+                }
+                if step == step_want {
+                    res = f.into_iter().filter(|x| x.prop == prop).map(|x| (format!("{}-after-history", x.key), x.what)).collect();
+                }
+            }
+            res
+        });
+        return h.map_err(|e| e.to_string())?.join().map_err(|_| "history thread panicked".to_string());
+    }
+    let (input, _) = subject::case_from_json(case).ok_or("malformed case")?;
+    let seq: Vec<(u8, bool)> = case.get("levels_then_force_byte").and_then(|s| s.as_array()).ok_or("no sequence")?.iter().filter_map(|x| Some((x.get(0)?.as_u64()? as u8, x.get(1)?.as_bool()?))).collect();
+    let mut b = fast_qr::QRBuilder::new(input.clone());
+    let mut res = vec![];
+    for (step, &(e, force_byte)) in seq.iter().enumerate() {
+        let o = Opts { mode: if force_byte { Some(2) } else { None }, ecl: Some(e), version: None, mask: None, order: 0 };
+        let built = match subject::guarded(|| {
+            b.ecl(subject::ECLS[e as usize]);
+            if force_byte {
+                b.mode(subject::MODES[2]);
+            }
+            b.build()
+        }) {
+            Ok(r) => subject::classify(r),
+            Err(m) => Outcome::Panic(m),
+        };
+        let mut f = core::check_outcome(&built, &input, &o);
+        if let Outcome::Ok(q) = &built {
+            f.extend(core::check_symbol(q, &input, &o));
+        }
+        if step == step_want {
+            res = f.into_iter().filter(|x| x.prop == prop).map(|x| (format!("{}-after-rebuild", x.key), x.what)).collect();
+        }
+    }
+    Ok(res)
+}
